@@ -249,7 +249,7 @@ func (ir *ifdReader) readSubIfds(t Tag) {
 			}
 			return
 		}
-		for i := 0; i < int(t.UnitCount); i++ {
+		for i := 0; i < int(t.UnitCount) && 4*i+4 <= len(buf); i++ {
 			ir.addTagBuffer(NewTag(t.ID, tag.TypeIfd, tag.TypeIfdSize, t.ByteOrder.Uint32(buf[4*i:]), ifds.SubIfd0+ifds.IfdType(i), 0, t.ByteOrder))
 		}
 	}
